@@ -1059,7 +1059,13 @@ class CallMixin(ExprMixin):
             for name in mut:
                 b = env.get(name)
                 if st.mode == "code" and not isinstance(b, Rec):
-                    raise Unsupported(f"call of {key} updates {name} in place: the caller must list that object in `mutates`")
+                    # a plain object value: allowed when it is what a LOCAL variable of the caller holds (an object the caller
+                    # made or received from a constructor function); the variable then continues as a record. Other references
+                    # to the same object are not tracked (the frame contracts forbid sharing such objects).
+                    holders = [v for v, val in st.env.items() if isinstance(val, T) and val.kind == "V" and isinstance(b, T) and val.t.eq(b.t)]
+                    entry = st.ghost.get("entry", {})
+                    if not holders or any(h in entry for h in holders):
+                        raise Unsupported(f"call of {key} updates {name} in place: the caller must list that object in `mutates`")
                 before[name] = b
 
             def havoc(state, spec_env):
@@ -1079,6 +1085,12 @@ class CallMixin(ExprMixin):
                                 s2.env[var] = nr
                         if s2.ghost.get("rec") is before[name]:
                             s2.ghost["rec"] = nr
+                    elif isinstance(before[name], T) and state.mode == "code":
+                        nr = self.rec_of(cls, m)
+                        s2 = s2.fork()
+                        for var, val in list(s2.env.items()):
+                            if isinstance(val, T) and val.kind == "V" and val.t.eq(before[name].t):
+                                s2.env[var] = nr
                 return s2
 
             for ecls, cond in c.raises_iff:
